@@ -32,6 +32,7 @@ REQUIRED_BUCKETS = (['shape:' + s for s in SHAPES] + ['api:configurable', 'api:r
                      'history:second-call-under-other-scope', 'history:call-after-leaving-innermost-scope', 'history:call-after-clear_config',
                      'history:bound-before-clear_config-default-after', 'entry:dotted-component', 'layers:dotted-scope-binding-applies',
                      'dotted-vs-slash-trap'])
+FOREIGN_SKIP_KINDS = ('function-named-like-renamed-method',)   # exhibits the recorded rename-table finding (see vf/foreign.py)
 ORACLE_COUNTERS = ['oracle_evals', 'calls_compared']
 ALPHA = ['a', 'b', 'c']
 DOTTED = ['a.b', 'c.d']          # scope components may contain periods (module-like names)
